@@ -109,7 +109,15 @@ def render(path, enc):
         v = (target - cur[i]) if rel else (target - shift[i])
         cur[i] = target
         return ax + num(v)
+    if kind == "inch-then-mm":
+        unit_in = True
+        steps.append(["g", "G20"])
+        amap.append(None)
     for ai, st in enumerate(path):
+        if ai == at and kind == "inch-then-mm":
+            unit_in = False
+            steps.append(["g", "G21"])
+            amap.append(None)
         if ai == at and kind in ("inch", "relative", "g92"):
             if kind == "inch":
                 unit_in = True
@@ -182,7 +190,7 @@ class C08(Monitor):
         regs = [r for r in gen_regions(rnd, rnd.choice([1, 1, 2, 3, 4])) if not (r[0] == "rect" and min(r[1], r[3]) < 0.5)]
         if not regs:
             regs = [["rect", 10.0, 10.0, 25.0, 25.0, "r0"]]
-        kind = rnd.choice(["inch"] * 3 + ["relative"] * 3 + ["translate"] * 3 + ["g92"])
+        kind = rnd.choice(["inch"] * 2 + ["inch-then-mm"] * 2 + ["relative"] * 3 + ["translate"] * 3 + ["g92"])
         # arcs only where both encodings sample them identically (same units): the property's quantifier has no arcs, the
         # statement does not exclude them
         path = gen_path(rnd, regs, arcs=(kind in ("relative", "translate") and rnd.random() < 0.5))
@@ -255,4 +263,5 @@ class C08(Monitor):
                             enc=dict(kind="g92", at=1, shift=[1969, 1969, 0], axes="XY")))]
 
     def thresholds(self, tier):
-        return {"c08_steps_compared": 5000, "class:inch": 50, "class:relative": 50, "class:g92": 50, "class:translate": 50}
+        return {"c08_steps_compared": 5000, "class:inch": 30, "class:inch-then-mm": 30, "class:relative": 50, "class:g92": 50,
+                "class:translate": 50}
